@@ -37,7 +37,7 @@ def merge(dst: dict, src: dict):
             dst[k] = v
 
 
-def run(prop, level, modname, quick_models, thorough_budget, rule, real_code, stubbed, assumptions, replay_fn, quick_budget=120, fault_keys=()):
+def run(prop, level, modname, quick_models, thorough_budget, rule, real_code, stubbed, assumptions, replay_fn, quick_budget=120, fault_keys=(), max_reject=0.34):
     args = parse_args(prop)
     check = Check(prop, level, args)
     if args.replay:
@@ -55,6 +55,7 @@ def run(prop, level, modname, quick_models, thorough_budget, rule, real_code, st
     budget = check.budget(quick_budget, thorough_budget)
     drv = sw.Driver(args.repo)
     totals, rejected, trouble = {}, 0, []
+    reject_reasons = []
     n_models = 0
     try:
         i = 0
@@ -66,6 +67,8 @@ def run(prop, level, modname, quick_models, thorough_budget, rule, real_code, st
             for res in drv.map(modname, "model_task", tasks):
                 if "rejected" in res:
                     rejected += 1
+                    if len(reject_reasons) < 8:
+                        reject_reasons.append(res["rejected"].strip().replace("\n", " | ")[-260:])
                     continue
                 if "trouble" in res:
                     trouble.append(res["trouble"])
@@ -83,11 +86,11 @@ def run(prop, level, modname, quick_models, thorough_budget, rule, real_code, st
     if trouble and len(trouble) > max(2, n_models // 5):
         print("HARNESS-TROUBLE: %d of %d model tasks failed inside the harness; first:\n%s" % (len(trouble), n_models + len(trouble), trouble[0]))
         sys.exit(2)
-    if not check.violations and (n_models == 0 or rejected > max(3, (n_models + rejected) // 3)):
+    if not check.violations and (n_models == 0 or rejected > max(3, int((n_models + rejected) * max_reject))):
         # a pass that explored (almost) nothing is not a pass: the workload generator and the tool disagree about what a valid
         # package is, or generated code became unusable across the board - neither is something this check can judge
-        print("HARNESS-TROUBLE: %d of %d generated models were rejected by yardl or their generated code was unusable; nothing was decided"
-              % (rejected, n_models + rejected))
+        print("HARNESS-TROUBLE: %d of %d generated models were rejected by yardl or their generated code was unusable; nothing was decided\n  %s"
+              % (rejected, n_models + rejected, "\n  ".join(reject_reasons)))
         sys.exit(2)
     wall = check.elapsed()
     runs = totals.get("runs", 0)
@@ -95,6 +98,7 @@ def run(prop, level, modname, quick_models, thorough_budget, rule, real_code, st
     check.extra["simulation"] = {
         "simulated_runs": runs, "runs_per_hour": int(runs / max(wall, 1e-9) * 3600), "models": n_models,
         "generator_rejected_or_generated_code_unusable": rejected, "harness_task_failures": len(trouble),
+        "rejection_reasons(sample)": reject_reasons,
         "totals": totals, "fault_kinds": {k: totals.get(k, 0) for k in fault_keys},
         "real_code": real_code, "stubbed": stubbed,
     }
